@@ -602,5 +602,49 @@ class Leftovers(Part):
         return res
 
 
+class Clock(Part):
+    name = "owned_clock"
+    desc = "every configuration under a frozen clock, a clock that jumps 1000 s per reading and one that runs backwards (time / datetime as seen by netconan's modules replaced): identical output; sites = places where the code looks at a clock"
+
+    def __init__(self, tier, seed):
+        self.tier, self.seed = tier, seed
+
+    def cases(self):
+        cs = configs()
+        return [{"cfgs": cs[i:i + 12]} for i in range(0, len(cs), 12)]
+
+    def run(self, case):
+        res = Res()
+        ns = _ns()
+        long_text = TEXT + "description " + "word " * 400 + "\n" + TEXT
+        for c in case["cfgs"]:
+            outs = {}
+            for label, step in (("frozen", 0.0), ("jumping", 1000.0), ("backwards", -7.5)):
+                try:
+                    with seams.capture_logs(), seams.FakeClock(step) as clk:
+                        outs[label] = ns["run_cfg"](c, long_text)
+                    seams.restore_globals()
+                    res.count("max_clock_sites", clk.sites)
+                    res.count("clock_readings", clk.readings)
+                except Exception as e:
+                    outs[label] = "exception:%s:%s" % (type(e).__name__, str(e)[:80])
+            res.evals += 1
+            res.states += 1
+            res.transitions += 3
+            res.nt(json.dumps(c, sort_keys=True))
+            res.out(outs["frozen"])
+            for label in ("jumping", "backwards"):
+                if outs[label] != outs["frozen"]:
+                    a, b = outs["frozen"].split("\n"), outs[label].split("\n")
+                    i = [k for k in range(min(len(a), len(b))) if a[k] != b[k]][:1]
+                    res.violation("output-depends-on-the-clock|" + label,
+                                  "cfg %r: under a frozen clock %r, under a %s clock %r" % (
+                                      c, a[i[0]][:120] if i else outs["frozen"][:80], label, b[i[0]][:120] if i else outs[label][:80]),
+                                  {"cfgs": [c]})
+                    break
+        res.samples.append({"configurations": len(case["cfgs"])})
+        return res
+
+
 def parts(tier, seed):
-    return [Repetition(tier, seed), HashSeeds(tier, seed), History(tier, seed), GeneratedSalt(tier, seed), Leftovers(tier, seed)]
+    return [Repetition(tier, seed), HashSeeds(tier, seed), History(tier, seed), GeneratedSalt(tier, seed), Leftovers(tier, seed), Clock(tier, seed)]
